@@ -133,6 +133,21 @@ CHECKS = {
        "theorems.",
   tech="Lean 4 proof (step theorem) + virtual-time differential on call instants + quiet-period monitor",
   ref="§5 Buffer"),
+ "C12": dict(
+  text="Lean refinement proof: the sequential FileLock model (in-process Lock/RLock, nesting counter, one open file "
+       "description per acquisition, polling loop in virtual time, clean-up paths; after fixes F3/F9) refines the "
+       "Lock/RLock contract for EVERY contract-respecting operation sequence over any number of objects and threads "
+       "(C12_refines_contract), with corollaries C12_acquire_true_iff_held, C12_false_leaves_state, "
+       "C12_is_locked_iff, C12_reacquirable, C12_forced_release_frees, C12_unheld_release_noop, C12_no_fd_leak and "
+       "C12_time_bounds (non-blocking: 0; timed: timeout + one poll interval, any state, with faults). Tied to "
+       "aiuti.filelock by a bounded-exhaustive sequential differential on a real lock file (all sequences to length "
+       "3/4 over 24 operations x 3 reentrancy configs, each with a full release and re-acquire probes by everybody; "
+       "random to length 12) and every single / double OSError injection into open/lock/unlock/close",
+  note=NOTE_COMMON + "The refinement theorem is for fault-free histories; behaviour under injected OSErrors is "
+       "covered by the model-vs-code differential plus a no-residue monitor, not by a theorem. threading.Lock/RLock "
+       "are re-implemented by the harness for sequential runs; the kernel's flock is the real one.",
+  tech="Lean 4 refinement proof (model -> Lock/RLock contract, per-operation simulation) + bounded-exhaustive "
+       "differential with fault injection", ref="§5 C12"),
 }
 
 def main():
